@@ -21,10 +21,13 @@ class Symtab {
     struct Range { uint64_t lo = 0, hi = 0; };
     Range repo_data() const { return data_; }
     Range repo_bss() const { return bss_; }
+    // .data/.bss of the objects that play the application (bindings, drivers), where a second pair of markers brackets them
+    Range caller_data() const { return cdata_; }
+    Range caller_bss() const { return cbss_; }
     std::string data_sym(uint64_t addr) const;  // "name+off" of the data object containing addr, or "?"
   private:
     std::vector<Sym> syms_, data_syms_;
-    Range data_, bss_;
+    Range data_, bss_, cdata_, cbss_;
     uint64_t repo_lo_ = 0, repo_hi_ = 0;
 };
 extern Symtab g_symtab;
